@@ -1,4 +1,63 @@
-import Walleye.Model.MoveGen
+/-
+  C13 — capture-only generation used by quiescence yields only real captures, along any chain.
+
+  Proved (for every position satisfying the chain invariant `Inv`: sentinel ring, well-formed en
+  passant target, exact key; and every hasher):
+    * `caps_only_captures`: the descriptor of every capture-only successor names a move onto a
+      square occupied by an enemy piece, or onto the current en passant target;
+    * `caps_clears_ep`: every capture-only successor has NO en passant target, so an en passant
+      capture can never be generated for a double step made more than one ply earlier;
+    * `caps_subset_all`: every capture-only successor is literally one of the full generator's
+      successors (same board, rights, caches, key, descriptor, promotion fan-out included);
+    * `caps_no_castling`; `caps_chain`: the invariant survives any chain of capture-only generations.
+  Carried by correspondence (spec = Spec.legalMoves filtered to captures, with Spec.apply): that the
+  all-moves generator itself is exactly the legal moves (C01/C02); hence `_partial` below.
+-/
+import Walleye.Proofs.Caps
 namespace Walleye
-theorem C13_placeholder (c : Color) : c.opp.opp = c := Color.opp_opp c
+
+theorem caps_only_captures (h : Hasher) (p : Pos) :
+    ∀ s ∈ generateMoves h p .caps,
+      ∃ sq mov, s.lastMove = some (sq, mov) ∧ (EnemyAt p.board p.toMove mov ∨ p.ep = some mov) :=
+  fun s hs => (generateMoves_caps_shape h p s hs).2
+
+theorem caps_clears_ep (h : Hasher) (p : Pos) : ∀ s ∈ generateMoves h p .caps, s.ep = none :=
+  fun s hs => (generateMoves_caps_shape h p s hs).1
+
+theorem caps_subset_all (h : Hasher) (p : Pos) :
+    ∀ s ∈ generateMoves h p .caps, s ∈ generateMoves h p .all := generateMoves_caps_subset h p
+
+theorem caps_no_castling (h : Hasher) (p : Pos) :
+    generateMoves h p .caps =
+      boardCoords.flatMap fun pt =>
+        match p.board.get pt.row pt.col with
+        | .full piece => if piece.color = p.toMove then generateMovesForPiece h piece p pt .caps else []
+        | _ => [] := by
+  unfold generateMoves
+  rw [if_neg (by decide), List.append_nil]
+  congr 1
+
+/-- chains of capture-only generations, of any length, as followed by quiescence -/
+inductive CapChain (h : Hasher) : Pos → Pos → Prop where
+  | refl (p : Pos) : CapChain h p p
+  | step {p q s : Pos} : CapChain h p q → s ∈ generateMoves h q .caps → CapChain h p s
+
+theorem caps_chain (h : Hasher) (p q : Pos) (hinv : Inv h p) (hc : CapChain h p q) : Inv h q := by
+  induction hc with
+  | refl => exact hinv
+  | step _ hs ih => exact (generateMoves_inv h _ .caps ih _ hs).1
+
+/-- after the first capture of a chain no position of the chain carries an en passant target:
+    "an en-passant capture whose double step happened more than one ply earlier" cannot occur -/
+theorem caps_chain_no_stale_ep_partial (h : Hasher) (p q s : Pos) (_hc : CapChain h p q)
+    (hs : s ∈ generateMoves h q .caps) : s.ep = none ∧ ∀ t ∈ generateMoves h s .caps,
+      ∃ sq mov, t.lastMove = some (sq, mov) ∧ EnemyAt s.board s.toMove mov := by
+  have h1 := caps_clears_ep h q s hs
+  refine ⟨h1, fun t ht => ?_⟩
+  obtain ⟨sq, mov, hl, hor⟩ := caps_only_captures h s t ht
+  refine ⟨sq, mov, hl, ?_⟩
+  cases hor with
+  | inl e => exact e
+  | inr e => rw [h1] at e; cases e
+
 end Walleye
